@@ -86,9 +86,28 @@ def _seq_of(cmds, flag=None):
     return gen()
 
 
+class LoggingLock(asyncio.Lock):
+    """asyncio.Lock that records acquire calls, delayed grants and releases (installed by the harness as the driver's
+    public transaction_lock attribute; the driver itself is not modified)"""
+
+    def __init__(self, log):
+        super().__init__()
+        self._elog = log
+
+    async def acquire(self):
+        name = G._task_name()
+        fast = (not self._locked and (self._waiters is None or all(w.cancelled() for w in self._waiters)))
+        self._elog({"ev": "acq_call", "c": name})
+        r = await super().acquire()
+        if not fast:
+            self._elog({"ev": "acq_got", "c": name})
+        return r
+
+
 class Run:
     def __init__(self, sc):
         self.sc = sc
+        self.elog = []
         self.loop = VLoop()
         self.kind = sc["driver"]
         gwcls = {"tridonic": G.GwTridonic, "hasseb": G.GwHasseb, "luba": G.GwLuba, "sci": G.GwSci}[self.kind]
@@ -147,6 +166,7 @@ class Run:
             cc = c.get("cancel")
             if cc and t is not None and not t.done() and not c.get("_cancelled") and c.get("_started") and self._cond(cc, now):
                 c["_cancelled"] = True
+                self.elog.append({"ev": "cancel_req", "c": name})
                 t.cancel()
         return [self.gw.fd] if self.gw.readable() else []
 
@@ -232,8 +252,13 @@ class Run:
             d = cls("/dev/fake-dali", reconnect_interval=sc.get("reconnect_interval", 1),
                     reconnect_limit=sc.get("reconnect_limit"))
             d.exceptions_on_send = sc.get("exceptions", True)
+            if sc.get("trace_events"):
+                d.transaction_lock = LoggingLock(self.elog.append)
+                self.gw.elog = self.elog.append
             self.driver = d
             d.connection_status_callback.register(lambda drv, st: self.status.append([round(self.loop.time(), 6), st]))
+            if sc.get("trace_events"):
+                d.connection_status_callback.register(lambda drv, st: self.elog.append({"ev": "status", "st": str(st)}))
             d.connect()
         else:
             _stub_modules()
@@ -283,6 +308,7 @@ class Run:
                 res["results"] = [describe_result(r) for r in (rs or [])]
         except asyncio.CancelledError:
             res["exc"] = "CancelledError"
+            self.elog.append({"ev": "cancel", "c": name})
         except BaseException as e:  # noqa: recorded
             res["exc"] = type(e).__name__
         if name in self.closed_seqs:
@@ -291,6 +317,8 @@ class Run:
             res["closed"] = 1 if (g.gi_frame is None or not flag["started"]) else 0
         res["t1"] = round(self.loop.time(), 6)
         self.callers[name]["_res"] = res
+        self.elog.append({"ev": "done", "c": name, "exc": {"none": "none", "CancelledError": "Cancelled"}.get(res["exc"], res["exc"]),
+                            "nres": len(res["results"])})
 
     async def main(self):
         sc = self.sc
@@ -312,6 +340,7 @@ class Run:
             done, pending = await asyncio.wait(self.tasks.values(), timeout=sc.get("horizon", 120))
             out["hung"] = sorted(t.get_name() for t in pending)
             for t in pending:
+                self.elog.append({"ev": "cancel_req", "c": t.get_name()})
                 t.cancel()
             if pending:
                 await asyncio.wait(pending, timeout=1)
@@ -457,4 +486,5 @@ def run_scenario(sc):
             "opens": getattr(r.gw, "openlog", []), "present_at_end": 1 if r.gw.present else 0,
             "lost_at": round(r.lost_at, 6), "returned_in_time": r.returned_in_time,
             "reports": r.gw.reports if sc.get("keep_reports") else [],
+            "events": r.elog if sc.get("trace_events") else [],
             "now": round(loop.time(), 6), "iterations": loop.iterations}
